@@ -445,6 +445,11 @@ public:
                 return i;
             }
         }
+        if (g.branch(e >= g.ctx.real_val("18446744073709551616")))
+        {
+            g.ub("convert value >= 2^64 to size_t");
+            throw abort_path{"ub:fptoui-too-large"};
+        }
         g.conv_cap_hit = true;
         return g.conv_cap;
     }
